@@ -148,7 +148,7 @@ static void run_wide(Ctx& ctx, uint64_t N, const CpuCfg& cfg) {
   MODULE* mod = get_module(N, FFT64, cfg);
   std::vector<int64_t> mat, a;
   for (auto& q : std::vector<std::vector<uint64_t>>{{17, 3, 17, 3}, {3, 17, 3, 18}, {33, 2, 33, 3}, {2, 33, 3, 33}, {65, 2, 66, 2}, {2, 65, 2, 64}, {129, 2, 129, 1}, {1, 129, 1, 130},
-                                                    {257, 1, 257, 1}, {1, 257, 2, 257}, {256, 3, 255, 3}, {3, 256, 3, 255}, {64, 5, 63, 4}, {5, 64, 4, 63}, {128, 2, 300, 2}, {2, 128, 2, 300}})
+                                                    {257, 1, 257, 1}, {1, 257, 2, 257}, {256, 3, 255, 3}, {3, 256, 3, 255}, {64, 5, 63, 4}, {5, 64, 4, 63}, {128, 2, 300, 2}, {2, 128, 2, 300}, {513, 3, 513, 3}, {600, 3, 600, 3}, {1025, 1, 1025, 1}, {1100, 4, 1100, 3}, {3, 513, 3, 513}, {1, 1025, 1, 1025}, {512, 3, 512, 3}, {2049, 2, 2049, 1}})
     for (uint64_t asl : {N, N + 3}) {
       Shape s{N, q[0], q[1], q[2], q[3], asl};
       mat.resize(s.nr * s.nc * s.N); a.resize(std::max<uint64_t>(s.as, 1) * s.N);
